@@ -86,6 +86,11 @@ def group_suffix(cont, ctx):
     return ("%s__%s" % (inst_part(cont), ctx_part(ctx))).rstrip("_")
 
 
+def pname(i):
+    """parameter names as cbindgen copies them from the Rust source: snake_case names (with underscores) and plain ones"""
+    return "p_%d_arg" % i if i % 2 == 0 else "a%d" % i
+
+
 def decl(ctype, name):
     """C declarator of a parameter: the name goes inside a function pointer declarator"""
     if "(*)" in ctype:
@@ -95,7 +100,7 @@ def decl(ctype, name):
 
 def proto(m, cont_struct):
     recv = {"ref": "const struct %s *cont" % cont_struct, "mut": "struct %s *cont" % cont_struct, "own": "struct %s cont" % cont_struct}[m["recv"]]
-    args = "".join(", " + decl(CTYPE[t], "a%d" % i) for i, t in enumerate(m["args"]))
+    args = "".join(", " + decl(CTYPE[t], pname(i)) for i, t in enumerate(m["args"]))
     ret = ("struct %s" % cont_struct) if m["ret"] == "cont" else CTYPE[m["ret"]]
     return "%s%s(*%s)(%s%s);" % (ret, "" if ret.endswith("*") else " ", m["name"], recv, args)
 
